@@ -32,6 +32,7 @@ type Eff struct {
 	addrTaken  map[*ssa.Function]bool
 	cur        *ssa.Function
 	memo       map[ssa.Value]int // 0 unknown, 1 in progress, 2 fresh, 3 not
+	deepSeen   map[ssa.Value]bool
 }
 
 // Write is one write effect through a non-fresh reference.
@@ -52,6 +53,7 @@ func isRefType(t types.Type) bool {
 }
 
 func NewEff(p *Prog) *Eff {
+	// (deepSeen: cycle guard of deepFresh)
 	e := &Eff{p: p, funcs: p.AllLibFuncs(), paramFresh: map[*ssa.Function][]bool{}, retFresh: map[*ssa.Function][]bool{},
 		fieldFresh: map[string]bool{}, callers: map[*ssa.Function]int{}, addrTaken: map[*ssa.Function]bool{}}
 	for _, fn := range e.funcs {
@@ -347,10 +349,109 @@ func (e *Eff) loadFresh(addr ssa.Value, depth int) bool {
 			}
 			return true
 		case *ssa.IndexAddr:
+			// an element that is itself a reference: fresh only if everything put into the
+			// collection was fresh (a fresh slice of pointers to shared rules is not)
+			if et := deref(a.Type()); isRefType(et) || types.IsInterface(et) {
+				return e.deepFresh(a.X, 0)
+			}
 			return e.fresh(a.X)
 		}
 		return false
 	}
+}
+
+func deref(t types.Type) types.Type {
+	if p, ok := t.Underlying().(*types.Pointer); ok {
+		return p.Elem()
+	}
+	return t
+}
+
+// deepFresh: v is a collection allocated by this activation AND every reference stored in it is
+// fresh.  Conservative: collections returned by repository functions, loaded from fields or
+// received as parameters count as holding shared references.
+func (e *Eff) deepFresh(v ssa.Value, depth int) bool {
+	if depth > 8 {
+		return false
+	}
+	switch x := v.(type) {
+	case *ssa.Const:
+		return true
+	case *ssa.MakeSlice:
+		return true
+	case *ssa.Alloc:
+		// an array literal: its stores
+		ok := true
+		if rs := x.Referrers(); rs != nil {
+			for _, r := range *rs {
+				if ia, isIA := r.(*ssa.IndexAddr); isIA && ia.Referrers() != nil {
+					for _, r2 := range *ia.Referrers() {
+						if st, isSt := r2.(*ssa.Store); isSt && st.Addr == ssa.Value(ia) && isRefType(st.Val.Type()) && !e.fresh(st.Val) {
+							ok = false
+						}
+					}
+				}
+			}
+		}
+		return ok
+	case *ssa.Phi:
+		for _, ed := range x.Edges {
+			if ed == ssa.Value(x) {
+				continue
+			}
+			if ph2, isPhi := ed.(*ssa.Phi); isPhi && ph2 == x {
+				continue
+			}
+			if e.deepSeen == nil {
+				e.deepSeen = map[ssa.Value]bool{}
+			}
+			if e.deepSeen[ed] {
+				continue
+			}
+			e.deepSeen[ed] = true
+			ok := e.deepFresh(ed, depth+1)
+			delete(e.deepSeen, ed)
+			if !ok {
+				return false
+			}
+		}
+		return true
+	case *ssa.Slice:
+		return e.deepFresh(x.X, depth+1)
+	case *ssa.ChangeType:
+		return e.deepFresh(x.X, depth+1)
+	case *ssa.Call:
+		if b, ok := x.Call.Value.(*ssa.Builtin); ok && b.Name() == "append" {
+			if !e.deepFresh(x.Call.Args[0], depth+1) {
+				return false
+			}
+			if len(x.Call.Args) < 2 {
+				return true
+			}
+			// the appended elements arrive as a slice: a literal [n]T{...}[:] or a spread argument
+			return e.deepFresh(x.Call.Args[1], depth+1)
+		}
+		for _, cal := range e.p.Callees(x) {
+			if libPassthrough(calleeName(cal)) && len(x.Call.Args) > 0 {
+				return e.deepFresh(x.Call.Args[0], depth+1)
+			}
+		}
+		return false
+	case *ssa.UnOp:
+		if x.Op == token.MUL {
+			if al, ok := x.X.(*ssa.Alloc); ok && al.Referrers() != nil {
+				ok2 := true
+				for _, r := range *al.Referrers() {
+					if st, isSt := r.(*ssa.Store); isSt && st.Addr == ssa.Value(al) && !e.deepFresh(st.Val, depth+1) {
+						ok2 = false
+					}
+				}
+				return ok2
+			}
+		}
+		return false
+	}
+	return false
 }
 
 func (e *Eff) cellFresh(fv *ssa.FreeVar) bool {
